@@ -248,6 +248,20 @@ class SimRaw(io.RawIOBase):
         f = fs.write_fault
         if f is not None:
             k = f['kind']
+            if k == 'eio' and fs.raw_writes == f['at'] and f.get('partial') \
+                    and n > 1:
+                # part of the data reaches the disk, then the error (once)
+                half = n // 2
+                end = self.pos + half
+                if self.pos > len(self.data):
+                    self.data.extend(b'\0' * (self.pos - len(self.data)))
+                self.data[self.pos:end] = b[:half]
+                self.pos = end
+                fs.bytes_written += half
+                fs.fired('write_eio')
+                fs.fired('partial_write_then_error')
+                raise OSError(f.get('errno', errno.EIO),
+                              'simulated I/O error (write)', self.path)
             if k == 'eio' and fs.raw_writes == f['at']:
                 fs.fired('write_eio')
                 raise OSError(
